@@ -104,7 +104,10 @@ def run(chk, replay=None):
             meta.append((f"synth:{k}:{nfs}", spec, al))
     # numeric: aligned vs unaligned on events, real single-topology reactions (+ synthetic with massless half-integer spin)
     numeric_reactions = [("real", "jpsi_ksp_sigma", "helicity")] + ([("real", "jpsi_3pi_rho0", "helicity"), ("real", "jpsi_ksp_sigma", "canonical-helicity")] if tier == "thorough" else [])
-    small = [s for s in specs if s["meta"]["nfs"] == 3 and len(s["transitions"]) <= 8][: (3 if tier == "thorough" else 1)]
+    small = [s for s in specs if s["meta"]["nfs"] == 3 and len(s["transitions"]) <= 8]
+    # prefer final states whose spins differ (a rotation built with a neighbour's spin shows up there)
+    small.sort(key=lambda s: -len({d["spin2"] for n, d in s["particles"].items() if n.startswith("f")}))
+    small = small[: (3 if tier == "thorough" else 1)]
     numeric_specs = [tuple(x) for x in numeric_reactions] + [("synth", s) for s in small]
     nj = []
     for spec in numeric_specs:
@@ -164,6 +167,8 @@ def run(chk, replay=None):
             sig = f"create_spin_range:s2={r['s2']}:no_zero={r['nozero']}:{'raises-' + r.get('error', '') if r['raised'] else 'wrong-values'}:{'first-call' if first else 'after-other-calls'}"
         elif r.get("kind") == "built":
             sig = f"aligned-formulate-raises:{r['alignment'][:3]}:{r['error'].split(':')[0]}"
+        elif r.get("kind") == "pools" and clause == "rotation-carries-the-spin-of-its-state":
+            sig = f"rotation-with-wrong-spin:{rid.split(':')[-1][:3]}:state-spin2={info[1]}:j2={info[2][0]}"
         elif r.get("kind") == "pools":
             sig = f"pool-not-full-range:{rid.split(':')[-1][:3]}:spin2={info[1]}:massless={info[2]}"
         elif r.get("kind") == "equal" and r.get("nan") and any(o["massless"] and o["spin2"] > 0 for o in r["outer"][1:]):
